@@ -1,0 +1,10 @@
+//go:build verif
+
+// Contracts for the govc verifier (see /verif/DESIGN.md). Comment-only file.
+package hashz
+
+//@ func BKDRHash
+//@   ensures 0 <= result && result <= 2147483647
+//@   loop 1:
+//@     invariant 0 <= i && i <= len(s)
+//@     decreases len(s) - i
